@@ -1360,7 +1360,7 @@ func stepLeader(r *raft, m *pb.Message) error {
 		return nil
 	case pb.MsgReadIndex:
 		// only one voting member (the leader) in the cluster
-		if r.trk.IsSingleton() {
+		if r.isSoleVoter() {
 			// Even a sole voter must have committed an entry in its own term
 			// before its commit index is known to cover everything committed in
 			// earlier terms (e.g. after a restart that lost an unsynced commit
@@ -2087,6 +2087,16 @@ func (r *raft) abortLeaderTransfer() {
 	r.leadTransferee = None
 }
 
+// isSoleVoter returns true if the configuration has a single voter and that
+// voter is this node. A leader that removed itself from a two-voter group (and
+// does not step down on removal) still leads a configuration with a single
+// voter, but it is not that voter: the remaining node can elect itself and
+// commit without it, so the former must not answer reads on its own.
+func (r *raft) isSoleVoter() bool {
+	_, ok := r.trk.Voters[0][r.id]
+	return ok && r.trk.IsSingleton()
+}
+
 // committedEntryInCurrentTerm return true if the peer has committed an entry in its term.
 func (r *raft) committedEntryInCurrentTerm() bool {
 	// NB: r.Term is never 0 on a leader, so if zeroTermOnOutOfBounds returns 0,
@@ -2172,7 +2182,7 @@ func sendMsgReadIndexResponse(r *raft, m *pb.Message) {
 	// A sole voter has nobody to confirm its leadership with: answer directly
 	// (this is reached for requests that were postponed until the first commit
 	// in the current term).
-	if r.trk.IsSingleton() {
+	if r.isSoleVoter() {
 		if resp := r.responseToReadIndexReq(m, r.raftLog.committed); resp.GetTo() != None {
 			r.send(resp)
 		}
